@@ -27,7 +27,7 @@ RULE = ('generated selection problems: random taxonomy (<=7 leaves, 1-3 '
         'create_marker_gene_lookup_from_ref_list; plus an edge stream (no '
         'overlap with the query, duplicate query names, one leaf, no '
         'markers at all, target 0 / larger than the gene count, up/down '
-        'overlap). non-trivial = some parent has >=2 relevant pairs and the '
+        'overlap); a few problems whose reference file is written by the real find_markers_for_all_taxonomy_pairs (exact on-disk dtypes/chunking); tables written as int64 or as the smallest unsigned types. non-trivial = some parent has >=2 relevant pairs and the '
         'implementation selected >=1 gene; distinct by canonical JSON of '
         '(problem, configuration)')
 TRUSTED = ['h5py/numpy write and read back the generated reference-marker '
@@ -86,7 +86,7 @@ def overlap_pairs(prob):
 
 
 def check_problem(ctx, prob, configs, ref_list_configs=(), source='gen',
-                  predicates=True):
+                  predicates=True, writer=None):
     """one problem, several configurations.  returns number of failures"""
     n_viol0 = len(ctx.violations)
     detail_base = {'kind': 'problem', 'problem': prob.to_json(),
@@ -96,7 +96,8 @@ def check_problem(ctx, prob, configs, ref_list_configs=(), source='gen',
     ctx.count('mode:' + prob.label)
     ctx.count('n_per:%d' % prob.n_per)
     with pipeline.workdir('c12_') as d:
-        stats, ref = su.write_problem(prob, d)
+        stats, ref = (writer or su.write_problem)(prob, d)
+        ctx.count('dtype:' + ('real' if writer else getattr(prob, 'dtype_mode', 'int64')))
         tt = su.impl_tree(prob)
         # the pairs of each parent: order from the implementation, set
         # cross-checked against the independent census
@@ -420,7 +421,7 @@ def run(ctx):
             ctx.count('corpus')
             run_detail(ctx, json.loads(f.read_text()))
     thorough = (ctx.tier == 'thorough')
-    n_problems = 330 if thorough else 70
+    n_problems = 200 if thorough else 30
     n_edge_rounds = 6 if thorough else 1
     for k in range(n_problems):
         prob = su.gen_problem(rng)
@@ -437,9 +438,17 @@ def run(ctx):
         check_problem(ctx, prob, cfgs, rl)
         if k % 4 == 0 or thorough:
             model_self_check(ctx, prob)
+    # reference-marker files written by the real find_markers (exact on-disk
+    # format); the census is read back from the file's by-pair tables
+    for k in range(24 if thorough else 4):
+        prob, writer = su.real_problem(rng)
+        check_problem(ctx, prob, [(1 + k % 4, 0), (2, su.INF_CUTOFF)],
+                      [(2, 1)], source='real', writer=writer)
     for _ in range(n_edge_rounds):
         for prob, predicates in edge_problems(rng):
-            check_problem(ctx, prob, [(1, 0), (2, su.INF_CUTOFF), (3, 1)],
+            check_problem(ctx, prob,
+                          [(1, 0), (2, su.INF_CUTOFF), (3, 1)] if thorough
+                          else [(1, 0), (2, su.INF_CUTOFF)],
                           [(2, su.INF_CUTOFF)], source='edge',
                           predicates=predicates)
 
